@@ -20,6 +20,36 @@ type Layout struct {
 	lines    []string
 	cur      strings.Builder
 	sites    int // number of layout choice sites visited
+	Marks    map[string][2]int // declaration key -> (zero-based line, column) of its name in the text
+}
+
+// mark records where the name written next starts. Keys: type:<name>#<n>, ext:<name>#<n>,
+// rel:<type>#<n>:<rel>#<k>, cond:<name>#<n>, param:<cond>#<n>:<param>#<k> (n, k: occurrence index).
+func (l *Layout) mark(key string) {
+	if l.Marks == nil {
+		l.Marks = map[string][2]int{}
+	}
+	n := 0
+	for {
+		k := key + "#" + itoa(n)
+		if _, ok := l.Marks[k]; !ok {
+			l.Marks[k] = [2]int{len(l.lines), len([]rune(l.cur.String()))}
+			return
+		}
+		n++
+	}
+}
+
+func itoa(n int) string {
+	if n == 0 {
+		return "0"
+	}
+	s := ""
+	for n > 0 {
+		s = string(rune('0'+n%10)) + s
+		n /= 10
+	}
+	return s
 }
 
 func NewLayout(rng *rand.Rand) *Layout {
@@ -246,6 +276,11 @@ func (l *Layout) typeDef(t Type) {
 	}
 	l.w("type")
 	l.ws()
+	tkey := "type:" + t.Name
+	if t.Extend {
+		tkey = "ext:" + t.Name
+	}
+	l.mark(tkey)
 	l.w(t.Name)
 	if len(t.Rels) == 0 {
 		return
@@ -256,11 +291,16 @@ func (l *Layout) typeDef(t Type) {
 		l.nl(4, true)
 		l.w("define")
 		l.ws()
+		l.mark("rel:" + t.Name + ":" + r.Name)
 		l.w(r.Name)
 		l.ows(false)
 		l.w(":")
 		l.ows(true)
-		l.def(r.Rewrite, r.Restr, true)
+		if r.Raw != "" {
+			l.w(r.Raw)
+		} else {
+			l.def(r.Rewrite, r.Restr, true)
+		}
 	}
 }
 
@@ -268,6 +308,7 @@ func (l *Layout) condition(c Cond) {
 	l.nl(0, true)
 	l.w("condition")
 	l.ws()
+	l.mark("cond:" + c.Name)
 	l.w(c.Name)
 	l.ows(false)
 	l.w("(")
@@ -277,6 +318,7 @@ func (l *Layout) condition(c Cond) {
 			l.w(",")
 			l.ows(true)
 		}
+		l.mark("param:" + c.Name + ":" + p.Name)
 		l.w(p.Name)
 		l.ows(false)
 		l.w(":")
@@ -304,6 +346,12 @@ func (l *Layout) condition(c Cond) {
 
 // Render writes the model (or module file, when m.Module != "") as DSL.
 func Render(m *Model, rng *rand.Rand) (string, int) {
+	s, l := RenderL(m, rng)
+	return s, l.sites
+}
+
+// RenderL also returns the layout (for the declaration marks).
+func RenderL(m *Model, rng *rand.Rand) (string, *Layout) {
 	l := NewLayout(rng)
 	if rng != nil {
 		// leading blank / comment lines
@@ -315,7 +363,9 @@ func Render(m *Model, rng *rand.Rand) (string, int) {
 			}
 		}
 	}
-	if m.Module != "" {
+	if m.RawHeader != "" {
+		l.w(m.RawHeader)
+	} else if m.Module != "" {
 		l.w("module")
 		l.ws()
 		l.w(m.Module)
@@ -359,5 +409,6 @@ func Render(m *Model, rng *rand.Rand) (string, int) {
 			}
 		}
 	}
-	return l.String(), l.sites
+	// leading lines shift the marks
+	return l.String(), l
 }
